@@ -37,6 +37,8 @@ theorem facts_shape :
     Sess.tcpOwnerSetCount = 2 ∧ Sess.tcpOwnerClearCount = 2 ∧ Sess.tcpOwnerCheckExpr = true ∧
     Sess.teardownSwitchExpr = true ∧ Sess.unsupportedTransportNoErrorCount = 2 ∧
     Sess.notImplementedNoErrorCount = 1 ∧
+    Sess.noDeadlineRuleExpr = true ∧ Sess.noDeadlineCount = 1 ∧ Sess.pauseRearmExpr = true ∧
+    Sess.tcpLoopDeadlineCount = 4 ∧ Sess.playRefusedKeepsWriterExpr = true ∧
     Sess.udpCheckRecordExpr = true ∧ Sess.udpCheckPlayExpr = true ∧ Sess.udpCheckRearmExpr = true ∧
     Sess.lastPacketNanosCount = 4 ∧ Sess.startPacketNanosCount = 2 ∧ Sess.lastPacketSecondsLeft = 0 ∧
     Sess.advertisedSub = 5 ∧ Sess.advertisedMin = 1 ∧
@@ -95,6 +97,12 @@ theorem refines_rfc (cfg : Config) (ss : Session) (c : Nat) (r : Request)
 theorem error_unchanged (cfg : Config) (ss : Session) (c : Nat) (r : Request)
     (h : (sessInner cfg ss c r).2.status ≠ 200) : (sessInner cfg ss c r).1 = ss :=
   sessInner_unchanged cfg ss c r h
+
+/-- … in particular what flows keeps flowing: a request refused by the application (or by the
+library) is a no-op on the streaming resources of the session -/
+theorem refused_keeps_flow (cfg : Config) (ss : Session) (c : Nat) (r : Request)
+    (h : (sessInner cfg ss c r).2.status ≠ 200) : flows (sessInner cfg ss c r).1 = flows ss := by
+  rw [error_unchanged cfg ss c r h]
 
 /-- both together, in the vocabulary of the specification -/
 theorem state_is_rfc_step (cfg : Config) (ss : Session) (c : Nat) (r : Request) (hm : r.method ≠ .teardown) :
@@ -398,6 +406,15 @@ theorem live_never_expired (cfg : Timer.Cfg) (recording : Bool) (hr : 0 < cfg.re
 
 example : Timer.PeerLive { idle := 3 * Timer.sec, read := 2 * Timer.sec } false 0 0
     [.tick Timer.sec, .request Timer.sec, .tick (2 * Timer.sec)] := by simp [Timer.PeerLive, Timer.sec]
+
+/-- A session that is resumed (PLAY / RECORD again) after a pause longer than the timeout starts its
+timeout anew at the resume (`restart`): a publisher whose first packet comes 1.5 s after the resume is
+live with ReadTimeout 2 s, although its previous packet is 9 s old. -/
+theorem resumed_after_long_pause_is_live :
+    Timer.PeerLive { idle := 6 * Timer.sec, read := 2 * Timer.sec } true 0 0
+      [.packet (3 * Timer.sec), .restart (21 * (Timer.sec / 2)), .tick (11 * Timer.sec), .tick (23 * (Timer.sec / 2)),
+       .tick (12 * Timer.sec), .packet (12 * Timer.sec), .tick (25 * (Timer.sec / 2))] :=
+  Timer.resumed_after_long_pause_is_live
 
 /-- With packet times kept in nanoseconds (fix a905e5a) a publisher with ReadTimeout = 1 s that
 sends a packet every 100 ms is live; the same timeline was timed out while the code kept the times
